@@ -92,7 +92,10 @@ type config struct {
 
 var kindOf = map[string]string{"fmap": "fmap", "fmap_cc": "fmap", "dup_sr": "dup", "dup_r": "dup",
 	"join_cc_r": "joincc", "join_cc_sr": "joincc", "join_sl_r": "joinsl", "join_sl_sr": "joinsl",
-	"join_var2": "joinvar", "join_var3": "joinvar", "pipeline": "pipeline"}
+	"join_var2": "joinvar", "join_var3": "joinvar", "pipeline": "pipeline",
+	// instances over other element types (drv_typed.go)
+	"fmap_e": "fmap", "dup_e": "dup", "join_cc_e": "joincc", "join_cc_a": "joincc", "join_sl_e": "joinsl",
+	"join_sl_sa": "joinsl", "join_sl_p": "joinsl", "join_var2_e": "joinvar", "join_var3_p": "joinvar", "pipeline_e": "pipeline"}
 
 func ints(l []int) string {
 	s := make([]string, len(l))
@@ -119,10 +122,19 @@ func ints(l []int) string {
 //      caller's goroutine, before it has returned the output nobody can receive from)
 //   6  NIL RESULTS (fmap over a function returning a channel): as 0, but the function returns a nil channel
 //      for every item divisible by 3; a nil result is an item like any other (reported as 0)
+//   7  SHARED CHANNELS (join forms, pipeline): as 0, but the channels are handed over in the sequence c.order
+//      in which a channel may occur more than once: twice on the channel of channels, twice in the slice,
+//      for two parameters of the variadic form, returned for two different items by the second stage of
+//      the pipeline (the inputs of a combinator need not be pairwise distinct)
+//   8  ZERO ITEMS: as 0, the item lists contain the zero value of the element type (0 = nil for the
+//      instances over error / interface{} / *int, see drv_typed.go); c.order = [element type]
 func quietEnv(env int) bool { return env == 2 || env == 4 }
 
 // start builds the environment of one run and calls the combinator.
 func start(c config) []<-chan int {
+	if typedForm(c.form) {
+		return startTyped(c)
+	}
 	quiet := quietEnv(c.env)
 	feeder := c.env == 1 || c.env == 3
 	jit := func(r *rng) {
@@ -211,6 +223,17 @@ func start(c config) []<-chan int {
 			handTo(len(l) - 1)
 		}()
 	}
+	// shared (env 7): the sequence in which the channels are given to the combinator
+	shared := func(l []chan int) []chan int {
+		if c.env != 7 {
+			return l
+		}
+		r := make([]chan int, len(c.order))
+		for i, j := range c.order {
+			r[i] = l[j]
+		}
+		return r
+	}
 	inputs := func() []chan int {
 		l := make([]chan int, len(c.ins))
 		for j := range l {
@@ -221,7 +244,7 @@ func start(c config) []<-chan int {
 			feed(l, func(chan int) {}, func() {})
 		}
 		ahead(filled(l))
-		return l
+		return shared(l)
 	}
 	recvOnly := func(l []chan int) []<-chan int {
 		r := make([]<-chan int, len(l))
@@ -248,7 +271,7 @@ func start(c config) []<-chan int {
 		default:
 			r := fork(c.seed, 5)
 			go func() {
-				for _, ch := range l {
+				for _, ch := range shared(l) {
 					jit(r)
 					o <- ch
 				}
@@ -332,7 +355,7 @@ func start(c config) []<-chan int {
 			return ch
 		}
 		var pre []chan int // feeder environments: the channels exist (and are being fed) before g hands them out
-		if feeder {
+		if feeder || c.env == 7 {
 			pre = inputs()
 		}
 		g := func(j int) <-chan int {
@@ -345,6 +368,9 @@ func start(c config) []<-chan int {
 			return ch
 		}
 		idx := make([]int, len(c.ins))
+		if pre != nil {
+			idx = make([]int, len(pre))
+		}
 		for j := range idx {
 			idx[j] = j
 		}
@@ -553,6 +579,9 @@ func main() {
 		nvar := 0
 		if kindOf[c.form] == "joinvar" {
 			nvar = len(c.ins)
+			if c.env == 7 {
+				nvar = len(c.order)
+			}
 		}
 		var ins, os_ []string
 		for _, in := range c.ins {
